@@ -166,6 +166,29 @@ fn main() {
         }
         rep.sample("to_dyn", "to_dyn!(Tr, <only handle>) for RcRefCell / ArcRwLock / ArcMutex: if it succeeds the target must stay alive until the last trait-object handle is dropped".into());
     }
+    // ---- an Rc<RefCell>-backed Reference must keep RefCell's exclusivity: a mutable borrow through a clone while a
+    // shared borrow is alive (or the reverse) must be refused (panic), otherwise safe code can invalidate a live &T
+    if args.mine("exclusive", 0) {
+        let r = rc_ref_cell_reference(vec![1u32, 2, 3]);
+        let r2 = r.clone();
+        rep.eval();
+        rep.distinct(("exclusive", 0));
+        {
+            let g = r.borrow();
+            let granted = catch(|| { let mut m = r2.borrow_mut(); m.push(4); }).is_ok();
+            let still = g.len();
+            if granted { rep.violation("C16/aliasing/RcRefCell/borrow_mut-while-borrowed", "exclusive", 0, format!("borrow_mut() through a clone was granted while a shared borrow is alive (shared view sees len {})", still)); }
+        }
+        rep.eval();
+        rep.distinct(("exclusive", 1));
+        {
+            let m = r.borrow_mut();
+            let granted = catch(|| r2.borrow().len()).is_ok();
+            drop(m);
+            if granted { rep.violation("C16/aliasing/RcRefCell/borrow-while-mutably-borrowed", "exclusive", 1, "borrow() through a clone was granted while a mutable borrow is alive".into()); }
+        }
+        rep.tally("exclusivity_checks");
+    }
     rep.floor("patterns_with_gaps", 1000);
     for c in 0..8 { rep.floor(&format!("terminal_combo/{}", c), 50); }
     rep.finish(&args);
